@@ -5,6 +5,7 @@ from h5 import gen, lean, wire
 
 ID = "C17"
 PROPS_MODULE = "H5.Props.C17"
+EXTRA_PROPS_MODULES = ["H5.Props.C17b"]
 GEN_MODULES = ["Whitespace"]
 CORRESPONDENCE_OPS = ["ws"]
 SOURCES = ["html5lib/filters/whitespace.py", "html5lib/constants.py"]
